@@ -286,4 +286,28 @@ theorem assembleLineGo_spec (W : List Int) (ns : List Nat) (hpos : ∀ n ∈ ns,
         rw [List.take_add]
       · omega
 
+
+/-- a flat direction of the merged `.pvtr` grid keeps the single ordinate of the first listed piece -/
+theorem pvtrLine_flat (sd : StructuredDecomposition) (pieceOrds : List (List (List Int))) (dir : Nat)
+    (hm : sd.isMeshed dir = false) (hext : sd.mergedExtents.getD dir 0 = 0) (x : Int)
+    (hx : ((pieceOrds.getD 0 []).getD dir []).take 1 = [x]) : pvtrLine sd pieceOrds dir = some [x] := by
+  unfold pvtrLine
+  simp only [hm, Bool.false_eq_true, if_false]
+  rw [hx, hext]
+  rfl
+
+/-- a meshed direction: if the consulted pieces are the pieces of that axis in order, the ordinates
+    of the whole axis are reproduced -/
+theorem pvtrLine_meshed (sd : StructuredDecomposition) (pieceOrds : List (List (List Int))) (dir : Nat)
+    (hm : sd.isMeshed dir = true) (W : List Int) (ns : List Nat) (hpos : ∀ n ∈ ns, 0 < n) (hne : ns ≠ [])
+    (hlen : W.length = sumList ns + 1) (hext : (sd.mergedExtents.getD dir 0).toNat + 1 = W.length)
+    (hcons : ((List.range (sd.cellsPerAxis.getD dir []).length).mapM fun i => do
+          let id ← sd.domainIdChecked (pvtrDomainLocation sd (sd.meshedDimensions.idxOf dir) i)
+          pure ((pieceOrds.getD id []).getD dir [])) = some (axisPieces W 0 ns)) :
+    pvtrLine sd pieceOrds dir = some W := by
+  unfold pvtrLine
+  simp only [hm, if_true]
+  rw [hcons, hext]
+  exact assembleLineGo_spec W ns hpos hne _ 0 (by simp) (by simp) (by omega)
+
 end Fc.C06
